@@ -154,6 +154,10 @@ def make (c):
                 g ['r'] = float (min (g ['r'] * float (rng.choice ([0.3, 0.5, 2.0, 3.0])), sl / 8.5))
             if rng.random () < 0.15 and g ['n'] >= 3 and not g.get ('taper'):
                 g ['taper'] = [int (rng.integers (1, 4)), None, None]
+                if rng.random () < 0.4:
+                    # with a longest segment only (0.8 .. 1.6 equal segment lengths), handed to the classes of the library
+                    g ['taper'][2] = float (np.linalg.norm (np.array (g ['p1']) - np.array (g ['p2'])) / g ['n'] * rng.uniform (0.8, 1.6))
+                    spec ['route'] = 'api'
     for i, g in enumerate (spec ['geo']):
         g ['tag'] = i + 1
     return spec
@@ -161,7 +165,7 @@ def make (c):
 
 def check (c):
     spec = c if 'geo' in c else make (c)
-    m    = gen.build (spec)
+    m    = gen.build (spec, route = 'api') if spec.get ('route') == 'api' else gen.build (spec)
     lam  = gen.C_MHZ / m.f
     common.guarded (m.compute_impedance_matrix, 'compute_impedance_matrix')
     Z    = np.array (m.Z)
